@@ -7,7 +7,7 @@
    result of a thread = (header PoseHeader.read returns, offset at which the body is read);
    [result_alone j] = header of j's own file parsed from offset 0, and the offset after it. *)
 From Coq Require Import ZArith NArith List Bool.
-Require Import ListN Result Bytes Prog Codec PoseRead C18_Threads C18_Local C18_Inv C18_Refuted C18_GenTie.
+Require Import ListN Result Bytes Prog Codec PoseRead C18_Threads C18_Local C18_Inv C18_Refuted C18_StreamBody C18_GenTie.
 Import ListNotations.
 
 (* every clause of the statement for header and body offset: all thread counts, all schedules, no bound *)
@@ -49,8 +49,7 @@ Print Assumptions alone_is_the_solo_run.
 
 (* the body: for threads with a plain reader (bytes, or a stream without window) the returned pose is
    Pose.read of the sequential model on an empty memo.  PARTIAL: for BytesIOReader threads (window read of a
-   stream) the body is decoded from the proved (header, offset) by a reader whose buffer depends on the prefetch
-   length; that this does not change the decoded body is the reader theorem of C03, not shown here. *)
+   stream) the thread model stops at the proved (header, offset); the body is covered by the next theorem. *)
 Theorem isolated_pose_partial : forall (pf : option N -> N) jobs m0 sched, Good m0 ->
   let st := run pf true jobs sched (init jobs m0) in
   complete st = true ->
@@ -59,6 +58,20 @@ Theorem isolated_pose_partial : forall (pf : option N -> N) jobs m0 sched, Good 
             req (pose_from j r) (fst (read_bytes no_legacy None (j_file j) (j_args j))).
 Proof. exact isolated_pose_plain. Qed.
 Print Assumptions isolated_pose_partial.
+
+(* BytesIOReader threads: a stream reader holding ANY prefix of the file (whatever prefetch length the thread
+   took from the memo at pose.py:60) and positioned at the (header, offset) of [isolated] returns the pose that
+   the same file gives when read as bytes, alone, on an empty memo.  PARTIAL: forward direction only (the bytes
+   read succeeds; via the reader simulation of C03), and the reader state "some prefix, offset inside it" is
+   the modelled shape of a thread's reader, not a component of the thread model's result. *)
+Theorem isolated_stream_body_partial : forall j h e L pl pose,
+  result_alone j = ROk h e -> (e <= lenN (takeN L (j_file j)))%N ->
+  fst (read_bytes no_legacy None (j_file j) (j_args j)) = Ok pose ->
+  exists b sr', run_stream (j_file j) (read_body no_legacy h (j_args j))
+                  {| buf := takeN L (j_file j); off := e; skipped := 0%N; pulled := pl |} = Ok (b, sr') /\
+                pose = {| p_header := h; p_body := b |}.
+Proof. exact stream_pose_of_alone. Qed.
+Print Assumptions isolated_stream_body_partial.
 
 (* without the lock (defect F13; also the mutant "remove the lock") the statement is false; the witness switches
    threads only at line boundaries: thread 0 passes the hash comparison, thread 1 stores another file's header,
